@@ -182,6 +182,19 @@ func (vc *VC) applyContractOn(callee *ssa.Function, args []Term, preIn *Heap, r 
 	}
 	ms := vc.prog.modset(callee)
 	vc.declareModSet(ms)
+	if c != nil && c.HasModifies && ms.All {
+		// an explicit modifies clause (verified against the body, or trusted) replaces an inferred
+		// "may write anything": only the named components can change at existing locations
+		allowed := vc.modifiesItems(env, c)
+		ms2 := newModSet()
+		for comp := range allowed {
+			ms2.Old[comp] = true
+		}
+		ms2.FreshAll = true
+		ms2.Old["Gcalls_n"], ms2.Old["Gcalls_fn"], ms2.Old["Gcalls_args"] = true, true, true
+		vc.callLogDecl()
+		ms = ms2
+	}
 	post := pre.clone()
 	vc.havocFor(post, ms)
 	res := vc.resultTerms(callee.Signature, post, r, label)
